@@ -4,6 +4,7 @@ import (
 	"bufio"
 	"fmt"
 	"os"
+	"regexp"
 	"runtime"
 	"strconv"
 	"strings"
@@ -20,16 +21,20 @@ import (
 // through the scheduling points pkg/verifsched.Point (build tag verif).
 //
 // Case: "<dialogue> | <schedule>".
-//   dialogue: one letter per GUI line: P `position startpos`, F `go depth 1` (finite), I `go infinite`,
-//             S `stop`, R `isready`.
-//   schedule: either a string of labels produced by the model (Uci/Conc.v): 'r' = the reader thread
-//             makes its next step, a digit k = search goroutine k makes its next step, an upper-case
-//             letter A+i = asynchronous StartSearch activation i makes its next step;
-//             or "random:<seed>": at every step one of the threads that can move is chosen at random.
+//
+//	dialogue: one letter per GUI line: P `position startpos`, F `go depth 1` (finite), I `go infinite`,
+//	          S `stop`, R `isready`.
+//	schedule: either a string of labels produced by the model (Uci/Conc.v): 'r' = the reader thread
+//	          makes its next step, a digit k = search goroutine k makes its next step, an upper-case
+//	          letter A+i = asynchronous StartSearch activation i makes its next step;
+//	          or "random:<seed>": at every step one of the threads that can move is chosen at random.
+//
 // One step of a thread = the code from the point it is parked at to its next point. After the
 // schedule the execution is drained (everything that can move is released, oldest first).
 // Observable: "out=<events> gst=<state> lines=<unconsumed> live=<search goroutines alive> lock=<0|1>"
-//   with events ready | best | refusepos | refusego, then " steps=<what was released>" (not compared).
+//
+//	with events ready | best | refusepos | refusego, then " steps=<what was released>" (not compared).
+//
 // Oracle: the property on the trace: no refusal, every consumed go answered by exactly one
 // bestmove once nothing can move any more, every isready answered, the lock free, every output
 // line whole.
@@ -39,12 +44,24 @@ func init() {
 
 var c06Line = map[byte]string{
 	'P': "position startpos", 'F': "go depth 1", 'I': "go infinite", 'S': "stop", 'R': "isready",
+	// further finite searches (all of them `go` with a limit): the acknowledged-but-ignored parameters and a time limit
+	'N': "go depth 1 nodes 1000", 'M': "go depth 2 mate 3", 'T': "go movetime 15",
+}
+
+func c06IsGo(c byte) bool { return c == 'F' || c == 'I' || c == 'N' || c == 'M' || c == 'T' }
+
+// every line the engine may print in these dialogues, whole
+var c06LineShapes = []*regexp.Regexp{
+	regexp.MustCompile(`^info depth \d+ score cp -?\d+ time \d+ nodes \d+ nps -?\d+ hashfull \d+ pv[ a-h1-8nbrq]*$`),
+	regexp.MustCompile(`^info string calculated timeout -?\d+$`),
+	regexp.MustCompile(`^info string windows \[-?\d+,-?\d+\] too small for value -?\d+\. Re-run search\.$`),
+	regexp.MustCompile(`^info string (nodes limit|mate) not implemented$`),
 }
 
 // well-formed, stopped dialogues for the random-schedule tie
 var c06Dialogues = []string{
 	"PF", "PIS", "PFS", "PRIRSR", "PFPF", "PISPIS", "PFSPIS", "RPFR", "PISSR", "PPF", "PFRPISR", "PIRRS",
-	"PFPFPF", "PISRPF", "PSIS", "PRFS",
+	"PFPFPF", "PISRPF", "PSIS", "PRFS", "PMR", "PNS", "PTR", "PMRPIS", "RPTSR",
 }
 
 func c06RandomDialogue(r *common.Rng) string {
@@ -64,7 +81,7 @@ func c06RandomDialogue(r *common.Rng) string {
 		b.WriteByte('P')
 		noise(1)
 		if r.Chance(1, 2) {
-			b.WriteByte('F')
+			b.WriteByte("FFNMT"[r.Intn(5)])
 			noise(2)
 		} else {
 			b.WriteByte('I')
@@ -92,6 +109,8 @@ func c06gen(r *common.Rng, n int, shard int, out *common.Out) {
 		out.Line("%s | random:%d", c06RandomDialogue(r), r.U64()%1000000)
 	}
 }
+
+var c06BestShape = regexp.MustCompile(`^bestmove [a-h][1-8][a-h][1-8][nbrq]?$`)
 
 // ---------------------------------------------------------------- output capture
 
@@ -171,16 +190,22 @@ func (e *c06Exec) classify(lines []string) {
 		switch {
 		case l == "readyok":
 			e.events = append(e.events, "ready")
-		case strings.HasPrefix(l, "bestmove "):
+		case c06BestShape.MatchString(l):
 			e.events = append(e.events, "best")
 		case l == "info string wrong idle state to set new position":
 			e.events = append(e.events, "refusepos")
 		case l == "info string no position is set":
 			e.events = append(e.events, "refusego")
-		case strings.HasPrefix(l, "info depth ") || strings.HasPrefix(l, "info string "):
-			// search output, not compared
 		default:
-			e.events = append(e.events, "junk:"+esc(l, true))
+			known := false
+			for _, re := range c06LineShapes {
+				if re.MatchString(l) {
+					known = true // search / parser output, not compared
+				}
+			}
+			if !known {
+				e.events = append(e.events, "junk:"+esc(l, true))
+			}
 		}
 	}
 }
@@ -239,11 +264,11 @@ func (e *c06Exec) grantable(a verifsched.Arrival) bool {
 	case strings.HasPrefix(a.Name, "reader.line."):
 		i, _ := strconv.Atoi(a.Name[len("reader.line."):])
 		c := e.dialogue[i]
-		if c == 'P' || c == 'F' || c == 'I' {
+		if c == 'P' || c06IsGo(c) {
 			// the GUI sends position/go only after the previous bestmove
 			gos := 0
 			for _, x := range e.dialogue[:i] {
-				if x == 'F' || x == 'I' {
+				if c06IsGo(byte(x)) {
 					gos++
 				}
 			}
@@ -431,7 +456,7 @@ func c06Execute(dialogue, schedule string, cp *c06Capture) (obs string, verdict 
 	<-readerDone
 	// a search may still be running (or about to be started by an asynchronous StartSearch): keep
 	// sending stop until every engine goroutine is gone, so that nothing leaks into the next case
-	for i := 0; i < 5000 && runtime.NumGoroutine() > e.base; i++ {
+	for i := 0; i < 2500 && runtime.NumGoroutine() > e.base; i++ {
 		uci.VerifHandleLine("stop")
 		time.Sleep(200 * time.Microsecond)
 	}
@@ -487,7 +512,7 @@ func (e *c06Exec) judge(ok bool) string {
 	}
 	gos, readies := 0, 0
 	for _, c := range e.dialogue[:consumed] {
-		if c == 'F' || c == 'I' {
+		if c06IsGo(byte(c)) {
 			gos++
 		}
 		if c == 'R' {
@@ -532,6 +557,8 @@ func (e *c06Exec) judge(ok bool) string {
 
 func c06run(cases []string, obs, oracle *common.Out) {
 	cp := c06StartCapture()
+	base := runtime.NumGoroutine()
+	leaked := 0
 	for _, line := range cases {
 		parts := strings.Split(line, " | ")
 		if len(parts) != 2 {
@@ -539,7 +566,21 @@ func c06run(cases []string, obs, oracle *common.Out) {
 			oracle.Line("OK")
 			continue
 		}
+		if leaked >= 2 {
+			// earlier cases left searches running that nothing can stop any more (each was reported as a failure):
+			// they would only slow everything down, so the remaining cases of this shard are not run
+			obs.Line("skipped: an earlier case of this shard left a search running")
+			oracle.Line("OK")
+			continue
+		}
 		o, v := c06Execute(strings.TrimSpace(parts[0]), strings.TrimSpace(parts[1]), cp)
+		if runtime.NumGoroutine() > base {
+			leaked++
+			base = runtime.NumGoroutine()
+			if v == "OK" {
+				v = "FAIL [C06] engine goroutines are still running after the dialogue ended and stop was sent (a search that cannot be stopped) [case " + line + "]"
+			}
+		}
 		obs.Line("%s", o)
 		oracle.Line("%s", v)
 	}
